@@ -15,6 +15,7 @@ EXPLANATION = (
     "limits in force for the next proposal; for PcaChain / HamiltonianChain / EnsembleSampler / GibbsChain one "
     "transition with a recording uninterpreted posterior (and gradient): every recorded evaluation point and the "
     "stored sample lie inside the limits."
+    ' Both kinds of limit in force together (their common interval); limits given at construction survive save/load; the momentum reversal inside bounded trajectories (shared with C07).'
 )
 BOUNDS = {"quick": "dimension <=2, setter sequences <=3 calls, <=2 retries / 2 leapfrog steps per transition",
           "thorough": "dimension <=3, setter sequences <=4 calls, <=3 retries / 3 leapfrog steps"}
